@@ -354,7 +354,13 @@ theorem C15_handler_runs_only_if
       · intro htcp; rw [ho]; simp only [Outcome.served]; rw [hexp.2.1 htcp]
 
 /-- **Otherwise the call fails and no handler runs**: in every scenario (any server kind), a
-failed call ran no handler, and over https nothing was written in the clear. -/
+failed call ran no handler, and over https nothing was written in the clear.
+The FIRST conjunct is a transcription lemma: every branch of `Tls.scenario` returns
+`Outcome.failed …` (`ok := false, handlers := 0`) or `Outcome.served …` (`ok := true,
+handlers := 1`), so `ok = false → handlers = 0` holds of anything built from those two
+constructors, whatever the branches' conditions are — it pins the model's bookkeeping; that a
+rejected connection reaches no handler in tonic is carried by the correspondence run (the handler
+counter of the `tls` cases).  The second conjunct has content (`C15_no_plaintext_fallback`). -/
 theorem C15_failure_runs_no_handler (ep : Endpoint Root Chain) (srv : ServerKind Root Chain)
     (inner : InnerInfo) (hs : Handshake Root Chain) :
     let o := scenario ep srv inner hs
@@ -535,7 +541,12 @@ theorem C15_later_statements_change_no_variable (sys : Sys Root) (hist more : Li
 nothing, so the same endpoint connected twice, or a clone of it, decides the same way; and
 `tls_config` on an existing endpoint (or a clone of one) gives what it gives on a fresh endpoint
 for the same URI — the connector it had before plays no part (the origin override, which `tls_config`
-does not read, stays). -/
+does not read, stays).
+The SECOND conjunct is a transcription lemma: `Proc.exec _ (.connect _) := p` by definition
+(`Endpoint::connect` takes `&self`; the model gives a connect statement no effect on the variables),
+so it is `rfl`; that connecting leaves an endpoint value usable and unchanged in tonic is carried by
+the correspondence run (cases that connect the same endpoint / a clone twice).  The first and third
+conjuncts compute with `Proc.exec` and `tlsConfig_replaces`. -/
 theorem C15_endpoint_values (sys : Sys Root) (p : Proc Root Chain) (e c : Nat)
     (ep : Endpoint Root Chain) (cfg : ClientTlsConfig Root Chain)
     (he : p.eps[e]? = some (.ok ep)) (hc : p.cfgs[c]? = some cfg) :
@@ -638,7 +649,13 @@ writes into requests; whether it is set before or after `tls_config`, to the end
 other one (a proxy or load balancer reached by address): `tls_config` builds the same connector — the name the
 server is authenticated against is the configured `domain_name`, else the endpoint URI's host — and
 `Connector::call` decides the same way.  So every admission theorem above holds verbatim of endpoints with an
-origin. -/
+origin.
+The SECOND conjunct is a transcription lemma: `Connector.call` never mentions the `origin` field (the
+field was added to the model for this theorem), so it is `rfl`, and the third conjunct follows from the
+first two; the first conjunct (`tls_config` commutes with `origin`) unfolds `Endpoint.tlsConfig`.  What
+gives the statement content is the counter-model `C15_origin_plays_no_part_fails_with_origin_as_name`
+(a `tls_config` that reads the origin falsifies it) and, for tonic itself, the `+o…` cases of the
+correspondence run. -/
 theorem C15_origin_plays_no_part (sys : Sys Root) (ep : Endpoint Root Chain) (o : Uri)
     (cfg : ClientTlsConfig Root Chain) (dialOk : Bool) (hs : ClientHello Root Chain → ClientView) :
     (ep.setOrigin o).tlsConfig sys cfg = (ep.tlsConfig sys cfg).map (·.setOrigin o) ∧
